@@ -49,6 +49,7 @@ class Aggregate:
         self.known, self.fixed = [], []
         self.first_seed = self.last_seed = None
         self.worker_wall = 0.0
+        self.event_logs = set()
 
     def add_run(self, rs, res, trace):
         self.runs += 1
@@ -57,6 +58,7 @@ class Aggregate:
             self.first_seed = rs
         self.last_seed = rs
         first = res[sorted(res)[0]]
+        self.event_logs.add(first.get('events'))
         if first.get('case_keys') is not None:
             self.keys.update(first['case_keys'])
         elif first.get('nontrivial'):
@@ -81,6 +83,11 @@ class Aggregate:
             'rule': getattr(self.mod, 'RULE', ''),
             'samples': self.samples,
             'simulated_runs': self.runs,
+            'distinct_event_logs': len(self.event_logs),
+            'distinct_event_logs_measure': 'distinct digests of the per-run '
+            'history of public-API operations (op kind, actor, arguments, '
+            'global sequence number) = distinct interleavings / operation '
+            'and fault sequences executed',
             'runs_per_hour': int(self.runs / ew * 3600),
             'executions_per_hour': int(self.executions / ew * 3600),
             'run_seeds': [self.first_seed, self.last_seed],
